@@ -105,6 +105,7 @@ def cases(tier, seed):
                     # Mutations(mutate_elite=False): the first member is protected from mutation, everything the
                     # statement says about "every agent" still has to hold for it
                     "mutate_elite": bool((pi + s + zoo.ALL.index(algo)) % 3 != 1),
+                    "wrapped": bool((pi + 2 * s + zoo.ALL.index(algo)) % 4 == 3),
                 }
                 if probs[1] > 0 and (pi + s + zoo.ALL.index(algo)) % 2 == 0:
                     # heads that sit AT their layer limits: layer mutations are stopped by the bound and fall back to node
@@ -426,6 +427,13 @@ def run_case(case):
         if algo in zoo.MULTI and case["seed"] % 2:
             kw["agent_ids"] = ["agent_0", "other_0", "agent_1"]  # groups interleaved
         pop = [zoo.make_agent(algo, case["obs"], index=i, hp_config=shared_cfg, **kw) for i in range(case["pop"])]
+        if case.get("wrapped") and algo in zoo.SINGLE and algo not in ("NeuralUCB", "NeuralTS") and case["obs"] in ("vector", "image"):
+            # a population of AgentWrapper-wrapped agents (observation normalisation): selection and mutation then go
+            # through the wrapper's clone() / attribute forwarding
+            from agilerl.wrappers.agent import RSNorm
+
+            pop = [RSNorm(a) for a in pop]
+            rec.hit("wrapped_populations")
     except CaseTimeout:
         raise
     except Exception as e:
